@@ -34,7 +34,7 @@ omit [DecidableEq N] in
     table or empty when there is none. -/
 theorem load_ok_iff (f : File N) (T : Table N) :
     load f = .ok T ↔ f.openOk = true ∧ f.elfOk = true ∧ ∃ ts es, f.text = some ts ∧ f.pcln = some (some es) ∧
-      T.funcs = es.map (fun e => (e.1, ts + e.2)) ∧ T.syms = f.symtab.getD [] := by
+      T.funcs = es.map (fun e => (e.1, ts + e.2)) ∧ T.syms = addrSyms (f.symtab.getD []) := by
   cases T with
   | mk tf tsy =>
   unfold load
@@ -48,7 +48,7 @@ theorem load_ok_iff (f : File N) (T : Table N) :
     | none => simp
     | some es =>
       cases f.symtab with
-      | none => simp; intro _; exact eq_comm
+      | none => simp [addrSyms]; intro _; exact eq_comm
       | some ss => simp; constructor <;> (rintro ⟨h1, h2⟩; simp [h1, h2])
 
 omit [DecidableEq N] in
@@ -102,7 +102,7 @@ theorem stripped_vars_error (env : Env N) (T : Table N) (h : load env.file = .ok
   have : T.syms = [] := by
     have := ((load_ok_iff _ _).1 h).2
     obtain ⟨_, _, _, _, _, h5⟩ := this
-    simp [h5, hs]
+    simp [h5, hs, addrSyms]
   simp [spec, varOf, varIn, h, this, lookup, resOf]
 
 /-! ## the slide -/
@@ -220,6 +220,64 @@ theorem absent_var_iff {env : Env N} {T : Table N} {bF bV : Addr} (L : Loaded en
   simp only [spec, varOf, varIn, L.load_ok, ← lookup_none_iff]
   cases hl : lookup T.syms n <;> simp [resOf]
 
+/-- **entries without an address are not variables**: a name carried only by symbol-table entries that do not name a place
+    in the image (undefined references, FILE / SECTION markers, TLS offsets) gives the not-found error, never
+    `st_value + slide` (which would be `0`, a TLS offset, …) -/
+theorem non_address_symbol_is_error {env : Env N} {T : Table N} {bF bV : Addr} (L : Loaded env T bF bV)
+    (ss : List (N × Addr × Bool)) (hss : env.file.symtab = some ss) (n : N)
+    (hn : ∀ e ∈ ss, e.1 = n → e.2.2 = false) (pre : List (Op N)) :
+    resAfter env pre (.findVar n) = .err .noVar := by
+  rw [absent_var_iff L]
+  obtain ⟨_, _, _, _, _, _, _, hsy⟩ := (load_ok_iff _ _).1 L.load_ok
+  rw [hsy, hss]
+  intro e he
+  simp only [Option.getD_some, addrSyms, List.mem_filterMap] at he
+  obtain ⟨x, hx, hxe⟩ := he
+  by_cases hb : x.2.2 = true
+  · simp only [hb, if_true, Option.some.injEq] at hxe
+    intro hen
+    have := hn x hx (by rw [← hen, ← hxe])
+    rw [this] at hb; cases hb
+  · simp [hb] at hxe
+
+/-! ## the loader hypothesis, per symbol
+
+`Loaded` fixes the two biases through the anchors only.  The clause of the property — *the exact run-time address of
+that symbol, for every symbol* — needs more: that the loader maps EVERY function (data symbol) of the table with that
+same bias.  It is stated here as an explicit hypothesis about a map `mem` from table addresses to run-time addresses;
+it is not proved (it is the linker's and loader's contract) and it is what the sweep of the check measures on every
+symbol against the runtime's own table and `&v`. -/
+
+/-- review A1: found ⇔ the run-time address (`memF`) of the first entry with exactly that name, under the per-symbol
+    loader hypothesis `hmem` -/
+theorem find_func_runtime_address {env : Env N} {T : Table N} {bF bV : Addr} (L : Loaded env T bF bV)
+    (memF : Addr → Addr) (hmem : ∀ e ∈ T.funcs, memF e.2 = e.2 + bF) (pre : List (Op N)) (n : N) (a : Addr) :
+    resAfter env pre (.findFunc n) = .ok a ↔
+      ∃ p q fa, T.funcs = p ++ (n, fa) :: q ∧ (∀ e ∈ p, e.1 ≠ n) ∧ a = memF fa := by
+  rw [find_func_iff L]
+  constructor <;> rintro ⟨p, q, fa, h1, h2, h3⟩ <;> refine ⟨p, q, fa, h1, h2, ?_⟩
+  · rw [hmem (n, fa) (by rw [h1]; simp)]; exact h3
+  · rw [hmem (n, fa) (by rw [h1]; simp)] at h3; exact h3
+
+theorem find_var_runtime_address {env : Env N} {T : Table N} {bF bV : Addr} (L : Loaded env T bF bV)
+    (memV : Addr → Addr) (hmem : ∀ e ∈ T.syms, memV e.2 = e.2 + bV) (pre : List (Op N)) (n : N) (a : Addr) :
+    resAfter env pre (.findVar n) = .ok a ↔
+      ∃ p q va, T.syms = p ++ (n, va) :: q ∧ (∀ e ∈ p, e.1 ≠ n) ∧ a = memV va := by
+  rw [find_var_iff L]
+  constructor <;> rintro ⟨p, q, va, h1, h2, h3⟩ <;> refine ⟨p, q, va, h1, h2, ?_⟩
+  · rw [hmem (n, va) (by rw [h1]; simp)]; exact h3
+  · rw [hmem (n, va) (by rw [h1]; simp)] at h3; exact h3
+
+/-- review A6: what the code does when the table loads but the anchor function is not in it (a vendored copy under
+    another import path): no slide at all — every function is answered with its bare table address, every variable with
+    its bare symbol value.  Correct exactly when the image is not relocated; the code cannot tell. -/
+theorem no_anchor_zero_slide (env : Env N) (T : Table N) (h : load env.file = .ok T)
+    (hno : lookup T.funcs env.anchorF = none) (pre : List (Op N)) (n : N) :
+    resAfter env pre (.findFunc n) = resOf (funcIn (.ok T) n) 0 ∧
+    resAfter env pre (.findVar n) = resOf (varIn (.ok T) n) 0 := by
+  rw [resAfter_eq, resAfter_eq]
+  simp only [spec, funcOf, varOf, fAlignOf, vAlignOf, h, funcIn, hno, and_self]
+
 /-! ## AllFunctions -/
 
 /-- `AllFunctions()` answers with a set of exactly the distinct function names of the table, after any history.
@@ -248,7 +306,9 @@ theorem run_pointwise (env : Env N) (ops : List (Op N)) :
   intro op _
   rw [resAfter_eq]
 
-/-- **concurrent first use**: whatever the goroutines are, whatever each of them calls and in whatever order the
+/-- **concurrent callers, interleavings of whole calls** (review B1: a call is atomic by the definition of
+    `Sym.runSched`, so this is `run_pointwise` over every interleaving — it does not model a call overtaking another's
+    initialisation; that is `sync.Once`'s contract, trusted, and what the concurrent lanes of the check test): whatever the goroutines are, whatever each of them calls and in whatever order the
     calls are scheduled (first lookups racing included), every call returns what it returns alone in a fresh process;
     so all per-call theorems hold for every call of every goroutine.  (Atomicity of a call with respect to the
     alignment state is `sync.Once`'s guarantee, see `Sym.runSched`; it is trusted, and observed by the concurrent
@@ -283,7 +343,7 @@ section Examples
 def exFile : File String :=
   { elfOk := true, text := some 0x401000#64,
     pcln := some (some [("p.f", 0x0#64), ("u.FindFuncByName", 0x40#64), ("p.g", 0x80#64), ("p.f", 0xc0#64)]),
-    symtab := some [("u.stubVar", 0x500000#64), ("p.v", 0x500008#64)] }
+    symtab := some [("u.stubVar", 0x500000#64, true), ("p.c", 0x0#64, false), ("p.v", 0x500008#64, true), ("p.tls", 0x10#64, false)] }
 
 /-- loaded with text bias 0x100 (as `-linkmode=external` does) and data bias 0xffff…f000 (wraps) -/
 def exEnv : Env String :=
@@ -316,6 +376,13 @@ example : (runSched exEnv {} [[.expose "p.g", .findVar "p.v"], [.findFunc "p.f"]
 -- listing the functions between lookups changes nothing (3 distinct names among 4 entries)
 example : (run exEnv {} [.allFuncs, .findFunc "p.g", .allFuncs, .expose "p.f", .findVar "p.v", .allFuncs]).2 =
     [.set 3, .ok 0x401180#64, .set 3, .ok 0x401100#64, .ok 0x4ff008#64, .set 3] := by decide
+-- symbol-table entries without an address (an undefined reference, a TLS offset) are not found
+example : (run exEnv {} [.findVar "p.c", .findVar "p.tls", .findVar "p.v"]).2 = [.err .noVar, .err .noVar, .ok 0x4ff008#64] := by decide
+-- the per-symbol loader hypothesis of `find_func_runtime_address` is satisfiable: everything mapped 0x100 higher
+example : ∀ e ∈ exTable.funcs, (fun a : Addr => a + 0x100#64) e.2 = e.2 + 0x100#64 := fun _ _ => rfl
+-- no anchor in the table: bare table addresses
+example : (run { exEnv with anchorF := "elsewhere.FindFuncByName" } {} [.findFunc "p.g", .findVar "p.v"]).2 =
+    [.ok 0x401080#64, .ok 0x500008#64] := by decide
 -- stripped build
 example : (run { exEnv with file := { exFile with symtab := none } } {} [.findFunc "p.g", .findVar "p.v"]).2 =
     [.ok 0x401180#64, .err .noVar] := by decide
